@@ -17,6 +17,8 @@
 package main
 
 import (
+	"runtime"
+	"sort"
 	"github.com/thushan/olla/internal/util"
 	"net/http/httptest"
 	"bufio"
@@ -111,6 +113,75 @@ func runChain(l Limits, reqs []ChainReq) (out []ChainObs, errs string) {
 		out = append(out, ChainObs{T0: t0, T1: t1, Allowed: res.Allowed})
 	}
 	return out, errs
+}
+
+// stallCase: one client address, 64 senders on two processors (so senders are descheduled at arbitrary points, also
+// between reading the clock and entering the bucket), per-IP 1000/s burst 3.  Every admission is recorded with the instants
+// just before and just after the validator was asked; the worst excess of any window over burst + rate x t is reported.
+func stallCase(seconds float64) map[string]any {
+	cfg := config.DefaultConfig()
+	cfg.Server.RateLimits.GlobalRequestsPerMinute = 0
+	cfg.Server.RateLimits.PerIPRequestsPerMinute = 60000
+	cfg.Server.RateLimits.HealthRequestsPerMinute = 0
+	cfg.Server.RateLimits.BurstSize = 3
+	cfg.Server.RateLimits.CleanupInterval = 0
+	svc, ad := security.NewSecurityServices(cfg, nil, vlib.QuietLogger())
+	defer ad.Stop()
+	prev := runtime.GOMAXPROCS(2)
+	defer runtime.GOMAXPROCS(prev)
+	type adm struct{ t0, t1 int64 }
+	start := time.Now()
+	var mu sync.Mutex
+	var all []adm
+	var asked int64
+	var wg sync.WaitGroup
+	for g := 0; g < 64; g++ {
+		wg.Add(1)
+		go func() {
+			defer wg.Done()
+			var mine []adm
+			n := int64(0)
+			for time.Since(start).Seconds() < seconds {
+				t0 := time.Since(start).Nanoseconds()
+				res, _ := svc.Chain.Validate(context.Background(), ports.SecurityRequest{ClientID: "203.0.113.50", BodySize: 10, Endpoint: "/x", Method: "POST"})
+				t1 := time.Since(start).Nanoseconds()
+				n++
+				if res.Allowed {
+					mine = append(mine, adm{t0, t1})
+				}
+			}
+			mu.Lock()
+			all = append(all, mine...)
+			asked += n
+			mu.Unlock()
+		}()
+	}
+	wg.Wait()
+	sort.Slice(all, func(i, j int) bool { return all[i].t0 < all[j].t0 })
+	// worst window: admissions whose [t0,t1] lies inside [a.t0, b.t1], against 3 + 1000/s x (b.t1 - a.t0)
+	ends := make([]int64, len(all))
+	for i, a := range all {
+		ends[i] = a.t1
+	}
+	worst, wc, ww := -1e18, 0, 0.0
+	for i := range all {
+		for j := i; j < len(all); j++ {
+			c := 0
+			for k := i; k < len(all) && all[k].t0 <= all[j].t1; k++ {
+				if all[k].t1 <= all[j].t1 {
+					c++
+				}
+			}
+			w := float64(all[j].t1 - all[i].t0)
+			if ex := float64(c) - (3 + w/1e6); ex > worst {
+				worst, wc, ww = ex, c, w/1e6
+			}
+			if j-i > 400 {
+				break // windows of more than 400 admissions add nothing new
+			}
+		}
+	}
+	return map[string]any{"asked": asked, "admitted": len(all), "worst_excess_milli": int64(worst * 1000), "worst_count": wc, "worst_window_us": int64(ww * 1000)}
 }
 
 // ------------------------------------------------------------------ stack scenarios
@@ -791,6 +862,12 @@ func main() {
 	for _, e := range outs {
 		c.Count(e.bucket)
 		c.Emit(e.m)
+	}
+	if vlib.ReplayPath() == "" {
+		for rep := 0; rep < map[bool]int{false: 2, true: 8}[tier == "thorough"]; rep++ {
+			c.Emit(map[string]any{"kind": "stall", "impl": stallCase(1.5)})
+			c.Count("stall")
+		}
 	}
 	c.Close(map[string]any{"exhaustive": tier == "thorough",
 		"exhaustive_note": "thorough: the whole (limits x connections 1/2/4/8 x keep-alive x sequential/concurrent x route mix) grid; quick: hard-coded witnesses + a 1/5 sample of the grid; body sizes limit-1, limit, limit+1, 5xlimit x {Content-Length, chunked} x {proxy, provider, anthropic} for three limits"})
